@@ -6,7 +6,7 @@
 ID=$1; SRC=$(realpath "$2"); V=$(cd "$(dirname "$0")/.." && pwd)
 WT=/tmp/cs/$ID; rm -rf $WT; mkdir -p /tmp/cs
 git -C /repo worktree add -q --detach $WT HEAD || exit 9
-OUT=$V/seeded/$ID; mkdir -p $OUT; cp $SRC/patch.diff $OUT/; for f in $SRC/demo* $SRC/build_demo.sh $SRC/README.md; do [ -f "$f" ] && cp "$f" $OUT/; done
+OUT=$V/seeded/$ID; mkdir -p $OUT; cp -r $SRC/. $OUT/; rm -f $OUT/FOREIGN* 
 LOG=$OUT/confirm.log; : > $LOG
 cd $WT
 cfg() { cmake -G Ninja -B _build -DCMAKE_BUILD_TYPE=RelWithDebInfo -DCMAKE_C_COMPILER=/usr/bin/clang-16 -DCMAKE_CXX_COMPILER=/usr/bin/clang++-16 -DCMAKE_CXX_FLAGS=-Wno-error -DCMAKE_C_FLAGS=-Wno-error >/dev/null 2>&1 && cmake --build _build >/dev/null 2>&1; }
